@@ -147,7 +147,7 @@ V.SPECIAL.update(SPECIALS)
 PLAIN = [0, 1, -1, 2, 3, 4, 5, 2 ** 31, 2 ** 63, 2 ** 64, 2 ** 70, -2 ** 70, 10 ** 400, True, False,
          0.0, -0.0, 0.5, 1.0, 1.5, 3.0, 1e308, inf, -inf, nan, 100, -100,
          1j, complex(nan, 0), complex(0.5, 0),
-         "", "a", "abc", "abcd", "yes", "y", "ye", "n", "no", "é", "1", "0.5", b"", b"a", None,
+         "", "a", "abc", "abcd", "abcdef", "yes", "y", "ye", "n", "no", "é", "1", "0.5", b"", b"a", None,
          (), (1,), (1, 2), (1, "a"), (1.0, 2), ("a", 1), (0.5, 1), (1, (0.5, True)), (1, 2, 3), (nan, 1),
          [1, 2], [], ["a"], [1, "a"], {}, {1: 2}, {"a": 1}, set(), {1}, {"a"}]
 
@@ -617,6 +617,7 @@ def grid():
           ["Tuple", [["Int"], ["Int"]]], ["Tuple", [["Float"], ["Str"]]], ["Tuple", [["Int"], ["Tuple", [["Float"], ["Bool"]]]]],
           ["Tuple", [["Range", 0.0, 1.0, False, False], ["Int"]]], ["Tuple", [["Int"], ["Str"]]],
           ["String", 1, 3, ""], ["String", 0, None, "^a"], ["String", 2, 4, "^[ab]+$"],
+          ["String", 0, 4, "^[a-z]*$"], ["String", 2, None, "^[a-z]*$"], ["String", 0, 2, ""], ["String", 3, None, ""],
           ["List", ["Int"], 0, None], ["List", ["Int"], 1, 2], ["List", ["Float"], 0, None], ["List", ["Str"], 0, 3],
           ["Dict", ["Str"], ["Int"]], ["Dict", ["Int"], ["Float"]], ["Set", ["Int"]], ["Set", ["Str"]], ["None"]]
     g += [["InstanceClone", "Foo", True, False], ["InstanceClone", "Foo", False, True], ["InstanceClone", "int", True, False]]
